@@ -755,7 +755,8 @@ class C15Plan(RunPlan):
 
 class C13Plan(RunPlan):
     prop = "C13"
-    expected_reach = ('parsed-to-equal-named-unit', 'spelling-became-ambiguous-after-generation', 'C13.spelling.checked', 'C13.sweep.checked')
+    expected_reach = ('parsed-to-equal-named-unit', 'spelling-became-ambiguous-after-generation', 'C13.spelling.checked', 'C13.sweep.checked',
+                      'C13.lookup-history.checked', 'C13.lookup-history.early-lookups-resolved')
     engine = "A"
     quick_runs = 2500
     thorough_runs = 60000
@@ -800,7 +801,39 @@ class C13Plan(RunPlan):
                     per_class[k] = per_class.get(k, 0) + v
             for v in r["violations"]:
                 violations.append(dict(v, boot=b, request={"engine": "BOOT", "what": "c13_sweep", "timeout": 600}))
-        self.sweep_results = res
+        # ---- lookups before and after late imports (differential against a twin world)
+        import random
+
+        from sim.util import h64
+
+        t = driver.Template({"imports": list(ALL_MODULES), "trace": False, "opt": False, "hashseed": 0})
+        try:
+            snap = t.request({"kind": "bootinfo"})["snapshot"]
+        finally:
+            t.close()
+        texts = sorted(set(x for x in snap["unit_symbols"] if x) | set(n for n in snap["units"] if " " not in n))
+        rng = random.Random(h64(seed, "c13-late"))
+        partial = [["si"], ["si", "us"], ["si", "iec", "computing"]]
+        for _ in range(3 if tier == "quick" else 16):
+            mods = list(ALL_MODULES)
+            rng.shuffle(mods)
+            partial.append(["si"] + [m for m in mods[:rng.randint(1, 8)] if m != "si"])
+        ltasks = []
+        for mods in partial:
+            late = [m for m in ALL_MODULES if m not in mods]
+            rng.shuffle(late)
+            ltasks.append(({"imports": mods, "trace": False, "opt": False, "hashseed": 0},
+                           {"engine": "BOOT", "what": "c13_late_lookup", "texts": texts, "late": late,
+                            "timeout": 600}))
+        lres = pool.run(ltasks)
+        lookups = 0
+        for (b, rq), r in zip(ltasks, lres):
+            if "harness_error" in r:
+                raise driver.HarnessError(r["harness_error"])
+            lookups += r["counters"]["C13.lookup-history.checked"]
+            for v in r["violations"]:
+                violations.append(dict(v, boot=b, request=rq))
+        self.sweep_results = res + lres
         seen, uniq = set(), []
         for v in violations:
             if v["signature"] not in seen:
@@ -808,7 +841,9 @@ class C13Plan(RunPlan):
                 uniq.append(v)
         return uniq, {"exhaustive_sweep": {"exhaustive": True, "boots": len(boots),
                                            "prefix_x_unit_x_exponent_cases": total, "parsed_to_same_object": ok,
-                                           "by_class": per_class}}
+                                           "by_class": per_class},
+                      "lookup_history": {"partial_boots": len(partial), "texts_per_boot": len(texts),
+                                         "lookups_compared_with_twin_world": lookups}}
 
     def evidence(self, tier, seed, t0, tasks, results, by_sig, known_seen, st, **kw):
         sweep = getattr(self, "sweep_results", None) or []
